@@ -77,6 +77,19 @@ func TestVerif_C04(t *testing.T) {
 		}
 		tr.close()
 	}
+	// the scripted scenarios of the tree engine (known cache windows), judged by the ledger
+	for si, sc := range vfScripts {
+		for _, cfg := range []vfTreeCfg{all[0], all[len(all)-1]} {
+			tr := vfNewTree(rec, "C04", -1-si, []vfTreeCfg{cfg})
+			if tr.dead {
+				return
+			}
+			tr.runScript(sc)
+			tr.flushAll()
+			rec.Add("scripted_scenarios", 1)
+			tr.close()
+		}
+	}
 	// MNT with spellings of one path: every handle for the directory must report the same
 	// fileid and type as LOOKUP from the root does
 	for _, cfg := range []vfTreeCfg{all[0], all[len(all)-1]} {
